@@ -910,7 +910,18 @@ impl Gen {
             2 => "NOPE".to_string(),             // not an address
             _ => coll.clone(),
         };
+        // a contract account naming itself as the collection (it is not its own admin)
+        let (sender, target) = if names.users.contains(&names.hostile) && self.rng.chance(1, 12) {
+            (names.hostile.clone(), names.hostile.clone())
+        } else {
+            (sender, target)
+        };
         let registered = o.registry.contains_key(&target);
+        // a Register that repeats exactly what is stored (a "harmless retry"), by whoever
+        if registered && self.rng.chance(1, 6) {
+            let e = o.registry.get(&target).unwrap();
+            return Some(Op::tx(&sender, &names.registry, msgs::reg_register(&target, &e.payout, e.bps), vec![]));
+        }
         let msg = if !registered || self.rng.chance(1, 8) {
             if self.rng.chance(1, 6) && registered {
                 msgs::reg_remove(&target)
